@@ -253,6 +253,21 @@ class Executor:
             self.covers.append(("pre", list(self.pc)))
         old = V.clone(env)
         self.old = old
+        if getattr(c, "relational", False):
+            # product program: the body is run once per environment of the tuple `env`; post relates the results
+            results = []
+            for sub in env:
+                try:
+                    self.exec_block(self.fn.body, sub)
+                    results.append(None)
+                except ReturnEx as r:
+                    results.append(r.value)
+                except RaiseEx:
+                    raise PathEnd()
+            for item in c.post(S, old, env, results):
+                cl = clause(item)
+                self.oblige("post#" + cl.name, cl.expr, self.fn, "post", keep=cl.keep, uses=cl.uses, by=cl.by, prop=cl.prop)
+            return
         entry = dict(env)        # the caller's view: parameters bound to the ORIGINAL boxes (a rebinding inside the body is invisible)
         self.entry = entry
         result = None
@@ -335,7 +350,7 @@ class Executor:
     def oblige(self, name, goal, node, kind, keep=True, uses=None, by=None, prop=False):
         if isinstance(goal, bool):
             goal = z3.BoolVal(goal)
-        full = "%s/%s" % (self.contract.qualname, name)
+        full = "%s/%s" % (getattr(self.contract, "label", None) or self.contract.qualname, name)
         sel = [i for i, h in enumerate(self.pc) if not _trivial(h)]
         ob = Obligation(full, [self.pc[i] for i in sel] + [f for _, f in (by or [])], goal, getattr(node, "lineno", 0), kind,
                         tags=[self.pc_tags[i] for i in sel] + ["input" for _ in (by or [])], uses=uses)
